@@ -51,7 +51,7 @@ def build(n, leaves, as_obj):
 def coq_wcs(n, leaves, as_obj):
     k = len(as_obj)
     steps = [f"mk_step {pipes.coq_fref(i, as_obj[i])} {leaves[i].coq_model() if i < k - 1 else 'None'}" for i in range(k)]
-    return "{| pipeline := " + glist(steps) + "; attrs := [] |}", glist([l.coq_def() for l in leaves])
+    return "(mk_wcs " + glist(steps) + " [])", glist([l.coq_def() for l in leaves])
 
 
 def expected_of(fn):
